@@ -238,8 +238,12 @@ def check_typing(edges, scheme, seed):
                 diff = [(t, b.get(t), o.get(t)) for t in set(b) | set(o) if b.get(t) != o.get(t)][:2]
                 return "%s coefficients change under renaming %r: %r" % (kind, perm, diff)
     # exclusion set: terms wholly inside are removed, only if the set is at least as large as the term
-    if n >= 3:
-        excl = set(range(min(n, 4)))
+    excls = [set(range(min(n, 4)))] if n >= 3 else []
+    # sets that are exactly the atoms of one bond / one angle / one dihedral
+    for kind in ('bond', 'angle', 'dihedral'):
+        if base[kind]:
+            excls.append(set(sorted(base[kind])[0]))
+    for excl in excls:
         try:
             ex = typed_terms(edges, types, exclude=excl)
         except AssertionError as e:
